@@ -8,6 +8,6 @@ Definition keepNat : nat := length (@nil N).
 Extraction "model_c07.ml" keepN keepZ keepNat
   mkOut mkCfg mkReq mkObs out_size out_value_size set_coin
   model_min_ada model_add_output model_helper model_collret model_build_assets model_build_ada model_last_admitted
-  build_guard obs_of mkTx full_tx_size build_tx_guard run_build_case run_entry_case run_txsize_case judge_returned
+  build_guard obs_of helper_output add_output mkTx full_tx_size build_tx_guard run_build_case run_entry_case run_txsize_case judge_returned
   judge_min_ada judge_admission judge_helper judge_collret judge_collraw judge_build
   helper_repaired collateral_checks_value_size topup_revalidates.
